@@ -98,6 +98,243 @@ impl FixtureDatabase {
 //@stub scan_venv resolve_entry_point_module_to_path
 //@stub scan_venv extract_package_name_from_dist_info
 //@stub scan_venv find_editable_pth_source_root
+}
+
+// Module layout: `lock()` on a Mutex-stripped field must resolve to VpLock (`&self`) in the one function that only
+// READS editable_install_roots (it is called from a closure, which cannot capture `&mut self`) and to VpLockMut
+// (`&mut self`) everywhere else; a trait is in scope per module, and a private method is visible in descendant modules.
+pub mod ro {
+use crate::*;
+use crate::lock_ro::VpLock;
+broadcast use {axiom_path_as_path, axiom_pathbuf_ref_as_path, lemma_fits, axiom_ts_n, axiom_te_n, axiom_pat_str, axiom_pat_char,
+    lemma_sv_step, axiom_str_path, axiom_plain_pv, axiom_file_name_parent, axiom_entry_name};
+impl FixtureDatabase {
+/*@ extract src/fixtures/scanner.rs resolve_entry_point_in_editable_installs
+@tags C14 C11 C12
+@ret r
+@loopvar 1 it
+@sig
+    ensures opt_pbv(r) == op_resolve_editable(self.vst().er, module_path@, 0),
+@loop 1
+    invariant it.seq() == installs@.as_ref(), installs@ == self.editable_install_roots@,
+        op_resolve_editable(self.vst().er, module_path@, 0) == op_resolve_editable(self.vst().er, module_path@, it.index@ as int),
+@loopstart 1
+    proof { assert(*install == self.editable_install_roots@[it.index@ as int]); }
+@*/
+}
+
+pub mod rw {
+use crate::*;
+broadcast use {axiom_path_as_path, axiom_pathbuf_ref_as_path, lemma_fits, axiom_ts_n, axiom_te_n, axiom_pat_str, axiom_pat_char,
+    lemma_sv_step, axiom_str_path, axiom_plain_pv, axiom_file_name_parent, axiom_entry_name};
+impl FixtureDatabase {
+/*@ extract src/fixtures/scanner.rs load_plugin_from_entry_point
+@tags C14 C11 C12
+@recv mut
+@ret r
+@closure or_else:1 || -> (q: Option<PathBuf>) ensures opt_pbv(q) == op_resolve_editable(self.vst().er, entry.module_path@, 0)
+@wrapexpr 1 `path.file_name().and_then(|n| n.to_str())` => `Self::vp_file_name_str_l(&path)` with fn vp_file_name_str_l<'a>(path: &'a PathBuf) -> (r: Option<&'a str>) ensures osv(r) == file_name_v(pbv(path))
+@loopvar 1 it
+@sig
+    ensures (final(self).vst(), r as nat) == op_load_plugin(old(self).vst(), pv(dist_info_path), pv(site_packages)),
+        final(self).site_packages_paths == old(self).site_packages_paths,
+        final(self).editable_install_roots == old(self).editable_install_roots,
+        final(self).workspace_root == old(self).workspace_root,
+@start
+    let ghost st0 = self.vst();
+    let ghost f0 = *self;
+    let ghost sp = pv(site_packages);
+@before for 1
+    let ghost es = entries@;
+    proof { assert(es.len() == vstd::std_specs::vec::spec_vec_len(&entries)); }
+@loop 1
+    invariant it.seq() == es, sp == pv(site_packages), st0 == f0.vst(), es.len() <= usize::MAX,
+        (self.vst(), scanned_count as nat) == op_entries_fold(st0, sp, eps_v(es), it.index@ as int),
+        scanned_count <= it.index@,
+        self.site_packages_paths == f0.site_packages_paths, self.editable_install_roots == f0.editable_install_roots,
+        self.workspace_root == f0.workspace_root,
+@loopstart 1
+    proof { assert(eps_v(es)[it.index@ as int] == ep_v(entry)); }
+@*/
+
+/*@ extract src/fixtures/scanner.rs scan_pytest_internal_fixtures
+@tags C14 C11 C12
+@recv mut
+@sig
+    ensures final(self).vst() == op_internal(old(self).vst(), pv(site_packages)),
+        final(self).site_packages_paths == old(self).site_packages_paths,
+        final(self).editable_install_roots == old(self).editable_install_roots,
+        final(self).workspace_root == old(self).workspace_root,
+@*/
+
+/*@ extract src/fixtures/scanner.rs build_pth_index
+@tags C14 C11 C12
+@ret r
+@wrapexpr 1 `std::collections::HashMap::new()` => `Self::vp_new_index()` with fn vp_new_index() -> (r: std::collections::HashMap<String, PathBuf>) ensures hmv(&r) == Map::<Seq<char>, PV>::empty()
+@replace 1 `std::fs::read_dir(site_packages)` => `vp_read_dir(site_packages)`
+@wrapexpr 2 `fname_str` => `Self::vp_cow_str_1(&fname_str)` with fn vp_cow_str_1<'a>(fname_str: &'a std::borrow::Cow<'a, str>) -> (r: &'a str) ensures r@ == cow_sv(*fname_str)
+@wrapexpr 3 `fname_str` => `Self::vp_cow_str_2(&fname_str)` with fn vp_cow_str_2<'a>(fname_str: &'a std::borrow::Cow<'a, str>) -> (r: &'a str) ensures r@ == cow_sv(*fname_str)
+@wrapexpr 1 `&fname_str` => `Self::vp_cow_str_3(&fname_str)` with fn vp_cow_str_3<'a>(fname_str: &'a std::borrow::Cow<'a, str>) -> (r: &'a str) ensures r@ == cow_sv(*fname_str)
+@wrapexpr 1 `index.insert(stem.to_string(), entry.path())` => `Self::vp_index_insert(&mut index, stem, &entry)` with fn vp_index_insert(index: &mut std::collections::HashMap<String, PathBuf>, stem: &str, entry: &FsEntry) -> (r: Option<PathBuf>) ensures hmv(final(index)) == hmv(old(index)).insert(stem@, fse_path(*entry))
+@loopvar 1 it
+@sig
+    ensures idx_ok(&r, pv(site_packages)),
+@before for 1
+    let ghost es = entries.entries();
+@loop 1
+    invariant it.seq() == es, hmv(&index) == pth_index_fold(es, it.index@ as int),
+@*/
+
+/*@ extract src/fixtures/scanner.rs discover_editable_installs
+@tags C14 C11 C12
+@recv mut
+@replace 1 `std::fs::read_dir(site_packages)` => `vp_read_dir(site_packages)`
+@replace 1 `serde_json::Value` => `VpJson`
+@replace 1 `serde_json::from_str(&content)` => `vp_json_from_str(&content)`
+@wrapexpr 1 `path.file_name().unwrap_or_default().to_string_lossy()` => `Self::vp_lossy_name_d(&path)` with fn vp_lossy_name_d<'a>(path: &'a PathBuf) -> (r: std::borrow::Cow<'a, str>) ensures cow_sv(r) == lossy_name_v(pbv(path))
+@wrapexpr 2 `filename` => `Self::vp_cow_str_d1(&filename)` with fn vp_cow_str_d1<'a>(filename: &'a std::borrow::Cow<'a, str>) -> (r: &'a str) ensures r@ == cow_sv(*filename)
+@wrapexpr 1 `&filename` => `Self::vp_cow_str_d2(&filename)` with fn vp_cow_str_d2<'a>(filename: &'a std::borrow::Cow<'a, str>) -> (r: &'a str) ensures r@ == cow_sv(*filename)
+@wrapexpr 1 `json .get("dir_info") .and_then(|d| d.get("editable")) .and_then(|e| e.as_bool()) .unwrap_or(false)` => `Self::vp_json_is_editable(&json)` with fn vp_json_is_editable(json: &VpJson) -> (r: bool) ensures r == json_editable(*json)
+@sig
+    ensures exists|idx: PthIndex| #[trigger] disc_post(old(self).vst(), final(self).vst(), pv(site_packages), idx),
+        final(self).site_packages_paths == old(self).site_packages_paths,
+        final(self).workspace_root == old(self).workspace_root,
+@start
+    let ghost st0 = self.vst();
+    let ghost f0 = *self;
+    let ghost sp = pv(site_packages);
+@return 1
+    assert(disc_post(st0, self.vst(), sp, arbitrary::<PthIndex>()));
+@return 2
+    assert(eis_v(self.editable_install_roots@) =~= Seq::<EiV>::empty());
+    assert(disc_post(st0, self.vst(), sp, pth_index));
+@before for 1
+    let ghost es = entries.entries();
+    let ghost mut i: int = 0;
+    proof { assert(eis_v(self.editable_install_roots@) =~= Seq::<EiV>::empty()); }
+@forloop 1 it
+    proof { assert(i == es.len()); }
+@loop 1
+    invariant 0 <= i <= es.len(), it.remaining() =~= es.skip(i), it.obeys_prophetic_iter_laws(), fs_dir(sp) == Some(es),
+        sp == pv(site_packages), fs_is_dir(sp), idx_ok(&pth_index, sp), st0 == f0.vst(),
+        self.vst() == (VSt { er: op_editables_fold(sp, &pth_index, es, i), ..st0 }),
+        self.site_packages_paths == f0.site_packages_paths, self.workspace_root == f0.workspace_root,
+    ensures i == es.len(),
+    decreases es.len() - i
+@loopstart 1
+    let ghost er0 = self.editable_install_roots@;
+    proof { assert(es.skip(i).drop_first() =~= es.skip(i + 1)); assert(entry == es[i]); i = i + 1; }
+@after push 1
+    proof { assert(eis_v(self.editable_install_roots@) =~= eis_v(er0).push(op_editable_of(sp, &pth_index, es[i - 1])->0)); }
+@before count 1
+    proof { assert(disc_post(st0, self.vst(), sp, pth_index)); }
+@*/
+
+/*@ extract src/fixtures/scanner.rs scan_pytest_plugins
+@tags C14 C11 C12
+@recv mut
+@replace 1 `for entry in std::fs::read_dir(site_packages).into_iter().flatten() {` => `{ let mut it = (vp_read_dir(site_packages).vp_into_iter_flatten()).into_iter(); loop invariant 0 <= i <= es.len(), es == dir_entries(sp), sp == pv(site_packages), it.remaining() =~= ok_entries(es).skip(i), it.obeys_prophetic_iter_laws(), (self.vst(), plugin_count as nat) == op_dists_fold(st2, sp, es, i), plugin_count <= ep_total(es, i), ep_total(es, es.len() as int) <= usize::MAX, self.site_packages_paths == f0.site_packages_paths, self.workspace_root == f0.workspace_root, ensures i == es.len(), decreases es.len() - i { let Some(entry) = it.next() else { proof { assert(i == es.len()); } break; }; proof { assert(ok_entries(es).skip(i).drop_first() =~= ok_entries(es).skip(i + 1)); assert(entry == ok_entries(es)[i]); lemma_ep_total_mono(es, i + 1, es.len() as int); lemma_load_count(self.vst(), fse_path(es[i]), sp); i = i + 1; }`
+@wrapexpr 1 `path.file_name().unwrap_or_default().to_string_lossy()` => `Self::vp_lossy_name_p(&path)` with fn vp_lossy_name_p<'a>(path: &'a PathBuf) -> (r: std::borrow::Cow<'a, str>) ensures cow_sv(r) == lossy_name_v(pbv(path))
+@wrapexpr 2 `filename` => `Self::vp_cow_str_p1(&filename)` with fn vp_cow_str_p1<'a>(filename: &'a std::borrow::Cow<'a, str>) -> (r: &'a str) ensures r@ == cow_sv(*filename)
+@wrapexpr 3 `filename` => `Self::vp_cow_str_p2(&filename)` with fn vp_cow_str_p2<'a>(filename: &'a std::borrow::Cow<'a, str>) -> (r: &'a str) ensures r@ == cow_sv(*filename)
+@sig
+    requires ep_fits(pv(site_packages)),
+    ensures exists|idx: PthIndex| #[trigger] plugins_post(old(self).vst(), final(self).vst(), pv(site_packages), idx),
+        final(self).site_packages_paths == old(self).site_packages_paths,
+        final(self).workspace_root == old(self).workspace_root,
+@start
+    let ghost st0 = self.vst();
+    let ghost f0 = *self;
+    let ghost sp = pv(site_packages);
+    let ghost es = dir_entries(sp);
+    let ghost mut i: int = 0;
+@after discover_editable_installs 1
+    let ghost idx = choose|idx: PthIndex| disc_post(st0, self.vst(), sp, idx);
+@after scan_pytest_internal_fixtures 1
+    let ghost st2 = self.vst();
+    proof { assert(st2 == op_internal(op_discover(st0, sp, &idx), sp)); }
+@end
+    }
+    proof { assert(plugins_post(st0, self.vst(), sp, idx)); }
+@*/
+
+/*@ extract src/fixtures/scanner.rs scan_venv_site_packages
+@tags C14 C11 C12
+@recv mut
+@replace 1 `std::fs::read_dir(&lib_path)` => `vp_read_dir(&lib_path)`
+@wrapexpr 1 `path.file_name().unwrap_or_default().to_string_lossy()` => `Self::vp_lossy_name_s(&path)` with fn vp_lossy_name_s<'a>(path: &'a PathBuf) -> (r: std::borrow::Cow<'a, str>) ensures cow_sv(r) == lossy_name_v(pbv(path))
+@wrapexpr 3 `dirname` => `Self::vp_cow_str_s1(&dirname)` with fn vp_cow_str_s1<'a>(dirname: &'a std::borrow::Cow<'a, str>) -> (r: &'a str) ensures r@ == cow_sv(*dirname)
+@loopvar 1 it
+@sig
+    requires forall|p: PV| #[trigger] ep_fits(p),
+    ensures exists|idx: PthIndex| #[trigger] site_post(old(self).vst(), final(self).vst(), pv(venv_path), idx),
+        final(self).workspace_root == old(self).workspace_root,
+@start
+    let ghost st0 = self.vst();
+    let ghost f0 = *self;
+    let ghost venv = pv(venv_path);
+@before for 1
+    let ghost es = entries.entries();
+@loop 1
+    invariant it.seq() == es, *self == f0, st0 == f0.vst(), f0 == *old(self), venv == pv(venv_path), fs_dir(venv + str_pv(lib_name())) == Some(es),
+        fs_exists(venv + str_pv(lib_name())), forall|p: PV| #[trigger] ep_fits(p),
+        first_sp(es, 0) == first_sp(es, it.index@ as int),
+@loopstart 1
+    proof { assert(entry == es[it.index@ as int]); }
+@after push 1
+    let ghost st1 = self.vst();
+    proof {
+        assert(venv_sp(venv) == Some(pbv(&site_packages)));
+        assert(st1.sp =~= st0.sp.push(pbv(&site_packages)));
+        assert(st1 == (VSt { sp: st0.sp.push(pbv(&site_packages)), ..st0 }));
+    }
+@return 1
+    let idx = choose|idx: PthIndex| plugins_post(st1, self.vst(), pbv(&site_packages), idx);
+    assert(site_post(st0, self.vst(), venv, idx));
+@after push 2
+    let ghost st1 = self.vst();
+    proof {
+        assert(venv_sp(venv) == Some(pbv(&windows_site_packages)));
+        assert(st1.sp =~= st0.sp.push(pbv(&windows_site_packages)));
+        assert(st1 == (VSt { sp: st0.sp.push(pbv(&windows_site_packages)), ..st0 }));
+    }
+@return 2
+    let idx = choose|idx: PthIndex| plugins_post(st1, self.vst(), pbv(&windows_site_packages), idx);
+    assert(site_post(st0, self.vst(), venv, idx));
+@end
+    proof { assert(venv_sp(venv) is None); assert(site_post(st0, self.vst(), venv, arbitrary::<PthIndex>())); }
+@*/
+
+/*@ extract src/fixtures/scanner.rs scan_venv_fixtures
+@tags C14 C11 C12
+@recv mut
+@replace 1 `std::env::var("VIRTUAL_ENV")` => `vp_env_var("VIRTUAL_ENV")`
+@loopvar 1 it
+@sig
+    requires forall|p: PV| #[trigger] ep_fits(p),
+    ensures exists|idx: PthIndex| #[trigger] venv_post(old(self).vst(), final(self).vst(), pv(root_path), idx),
+        final(self).workspace_root == old(self).workspace_root,
+@start
+    let ghost st0 = self.vst();
+    let ghost f0 = *self;
+    let ghost root = pv(root_path);
+@before for 1
+    proof { assert(pbvs(venv_paths@) =~= Seq::new(3, |k: int| root + str_pv(venv_names()[k]))); }
+@loop 1
+    invariant it.seq() == venv_paths@.as_ref(), *self == f0, st0 == f0.vst(), f0 == *old(self), root == pv(root_path), forall|p: PV| #[trigger] ep_fits(p),
+        venv_paths@.len() == 3, forall|k: int| 0 <= k < 3 ==> pbv(&#[trigger] venv_paths@[k]) == root + str_pv(venv_names()[k]),
+        first_venv(root, 0) == first_venv(root, it.index@ as int),
+@loopstart 1
+    proof { assert(*venv_path == venv_paths@[it.index@ as int]); }
+@return 1
+    let idx = choose|idx: PthIndex| site_post(st0, self.vst(), pbv(venv_path), idx);
+    assert(venv_post(st0, self.vst(), root, idx));
+@return 2
+    let idx = choose|idx: PthIndex| site_post(st0, self.vst(), pbv(&venv_path), idx);
+    assert(venv_post(st0, self.vst(), root, idx));
+@end
+    proof { assert(venv_of(root) is None); assert(venv_post(st0, self.vst(), root, arbitrary::<PthIndex>())); }
+@*/
 
 /*@ extract src/fixtures/scanner.rs scan_single_plugin_file
 @tags C14 C11 C12
@@ -111,7 +348,30 @@ impl FixtureDatabase {
         final(self).workspace_root == old(self).workspace_root,
 @*/
 
+/*@ extract src/fixtures/scanner.rs scan_plugin_directory
+@tags C14 C11 C12
+@recv mut
+@replace 1 `for entry in WalkDir::new(plugin_dir) .max_depth(3) .into_iter() .filter_map(|e| e.ok()) {` => `{ let mut it = (WalkDir::new(plugin_dir).max_depth(3).into_iter().filter_map(|e: WalkItem| -> (o: Option<DirEntry>) ensures o == ok_of(e) { e.ok() })).into_iter(); loop invariant 0 <= i <= es.len(), es == walk_ok(pv(plugin_dir), plugin_depth()), it.remaining() =~= es.skip(i), it.obeys_prophetic_iter_laws(), self.vst() == op_dir_fold(st0, es, i), self.site_packages_paths == f0.site_packages_paths, self.editable_install_roots == f0.editable_install_roots, self.workspace_root == f0.workspace_root, ensures i == es.len(), decreases es.len() - i { let Some(entry) = it.next() else { proof { assert(i == es.len()); } break; }; proof { assert(es.skip(i).drop_first() =~= es.skip(i + 1)); assert(entry == es[i]); i = i + 1; }`
+@wrapexpr 1 `path.extension().and_then(|s| s.to_str())` => `Self::vp_ext_str_d(path)` with fn vp_ext_str_d<'a>(path: &'a Path) -> (r: Option<&'a str>) ensures osv(r) == path_ext_v(pv(path))
+@wrapexpr 1 `path.file_name().and_then(|n| n.to_str())` => `Self::vp_file_name_str_d(path)` with fn vp_file_name_str_d<'a>(path: &'a Path) -> (r: Option<&'a str>) ensures osv(r) == file_name_v(pv(path))
+@closure unwrap_or_else:1 |_e: std::io::Error| -> (q: PathBuf) ensures pbv(&q) == pv(path)
+@sig
+    ensures final(self).vst() == op_scan_dir(old(self).vst(), pv(plugin_dir)),
+        final(self).site_packages_paths == old(self).site_packages_paths,
+        final(self).editable_install_roots == old(self).editable_install_roots,
+        final(self).workspace_root == old(self).workspace_root,
+@start
+    let ghost es = walk_ok(pv(plugin_dir), plugin_depth());
+    let ghost mut i: int = 0;
+    let ghost st0 = self.vst();
+    let ghost f0 = *self;
+@end
+    }
+@*/
+
 }
+} // mod rw
+} // mod ro
 
 } // verus!
 fn main() {}
